@@ -154,9 +154,8 @@ class PrintUsingFormatter:
         if sign_pos == 'begin':
             result = sign + result
         else:
+            # a trailing sign: the sign position is the last one
             result = result + sign
-            if sign != '-':
-                result = ' ' + result
 
         if len(result) < len(fmt):
             result = ' ' * (len(fmt) - len(result)) + result
